@@ -69,8 +69,7 @@ def execute(spec, policy, seed):
                         pkt._vtag = op[1]
                         run.sched.log('hand', p=op[1], mode=op[0])
                         r = api(run, c, 'write', packet=pkt, force=(op[0] == 'f'))
-                        if op[0] == 'f':
-                            run.sched.log('forced_ret', p=op[1], r=r)
+                        run.sched.log('forced_ret' if op[0] == 'f' else 'queued_ret', p=op[1], r=r)
                     else:
                         api(run, c, op[0])
             return body
@@ -109,8 +108,10 @@ def writer_events(run):
     in_call = {}
     for e in run.sched.events:
         k, t = e['ev'], e['t']
-        if k == 'enqueue' and isinstance(e.get('pkt'), int):
-            ev.append({'k': 'enq', 't': t, 'p': e['pkt']})
+        if k == 'hand' and e['mode'] == 'q':
+            ev.append({'k': 'handq', 't': t, 'p': e['p']})
+        elif k == 'queued_ret' and e['r'] == 'ok':
+            ev.append({'k': 'qdone', 't': t, 'p': e['p']})
         elif k == 'forced_ret' and e['r'] == 'ok':
             ev.append({'k': 'forced', 't': t, 'p': e['p']})
         elif k == 'api_call' and e['op'] in ('disc', 'disc_now'):
